@@ -536,6 +536,7 @@ class Cfg:
         self.p_serialize = 0.0       # chance that a class gets `void serialize() const;` (boost serialization hooks)
         self.matlab_ignore = False   # (read by streams.matlab_case) put namespaced classes on the MATLAB ignore list
         self.p_twin_arg = 0.0        # chance that an argument repeats an earlier templated argument type with other inner qualifiers
+        self.p_underscore = 0.0      # chance that an identifier (class, namespace, member, argument, enumerator name) begins with `_`
         self.p_kwlike = 0.0          # chance that a name starts with / contains a keyword of the dialect (classification, structure_t, …)
         self.p_member_template = None  # chance of a member-level template (default p_template * 0.6)
         self.p_fwd_twin = 0.0        # chance that a forward declaration repeats the last one's class name under other namespaces
@@ -572,12 +573,18 @@ class Gen:
     def cname(self):
         if self.cfg.p_kwlike and self.rng.random() < self.cfg.p_kwlike:
             return self.rng.choice(KWLIKE_UPPER)
-        return self.rng.choice(self.cfg.class_pool or UPPER)
+        return self.us(self.rng.choice(self.cfg.class_pool or UPPER))
+
+    def us(self, name):
+        """(p_underscore) the same name with a leading underscore: an ordinary identifier of the dialect"""
+        if self.cfg.p_underscore and self.rng.random() < self.cfg.p_underscore and not name.startswith("_"):
+            return "_" + name
+        return name
 
     def nsname(self):
         if self.cfg.p_kwlike and self.rng.random() < self.cfg.p_kwlike:
             return self.rng.choice(KWLIKE_LOWER)
-        return self.rng.choice(self.cfg.ns_pool or LOWER)
+        return self.us(self.rng.choice(self.cfg.ns_pool or LOWER))
 
     def ident(self, pool):
         if self.cfg.p_kwlike and self.rng.random() < self.cfg.p_kwlike:
@@ -585,7 +592,7 @@ class Gen:
         while True:
             n = self.rng.choice(pool)
             if n not in RESERVED:
-                return n
+                return self.us(n)
 
     # --- types
     def typename_parts(self, tparams=()):
@@ -684,7 +691,7 @@ class Gen:
         if n is None:
             n = rng.randint(0, self.cfg.max_args)
         args = []
-        names = rng.sample(ANAMES, n)
+        names = [self.us(x) for x in rng.sample(ANAMES, n)]
         k = rng.randint(0, n) if rng.random() < self.cfg.p_default else 0
         for i in range(n):
             d = self.gen_default() if i >= n - k else None
